@@ -130,6 +130,41 @@ impl Hold {
     }
 }
 
+// ---------- generic gates used by `collide`: the first matching command of a control client waits until released ----------
+pub struct Gate {
+    pub owner: usize,          // proxy whose RedisClientFactory created the client
+    pub node: usize,           // target Redis node
+    pub cmd: &'static str,     // upper-case command name
+    pub key: Vec<u8>,          // empty = any key
+    pub max: Duration,
+    pub armed: AtomicBool,
+    pub holding: AtomicBool,
+    pub was_held: AtomicBool,
+    pub released: AtomicBool,
+}
+
+impl Gate {
+    pub fn new(owner: usize, node: usize, cmd: &'static str, key: Vec<u8>, max: Duration) -> Arc<Self> {
+        Arc::new(Gate {
+            owner,
+            node,
+            cmd,
+            key,
+            max,
+            armed: AtomicBool::new(true),
+            holding: AtomicBool::new(false),
+            was_held: AtomicBool::new(false),
+            released: AtomicBool::new(false),
+        })
+    }
+    pub fn release(&self) {
+        self.released.store(true, Ordering::SeqCst);
+    }
+    pub fn disarm(&self) {
+        self.armed.store(false, Ordering::SeqCst);
+    }
+}
+
 pub struct Node {
     pub store: Mutex<Store>,
 }
@@ -144,6 +179,7 @@ pub struct World {
     pub seed: u64,
     pub spin: bool,
     pub hold: Option<Hold>,
+    pub gates: Mutex<Vec<Arc<Gate>>>,
     pub redis_events: AtomicU64,
     pub t0: Instant,
 }
@@ -171,6 +207,7 @@ impl World {
             seed,
             spin,
             hold,
+            gates: Mutex::new(vec![]),
             redis_events: AtomicU64::new(0),
             t0: Instant::now(),
         })
@@ -404,6 +441,42 @@ impl NetClient {
                 self.world
                     .log(seq, json!({"t": "hold", "seq": seq, "what": "end", "by": by, "cid": self.id}));
             }
+        }
+        let gate = {
+            let gates = self.world.gates.lock();
+            let name = if cmd.is_empty() { String::new() } else { upper(&cmd[0]) };
+            gates
+                .iter()
+                .find(|g| {
+                    g.owner == self.owner
+                        && g.node == node
+                        && name == g.cmd
+                        && (g.key.is_empty() || (cmd.len() >= 2 && cmd[1] == g.key))
+                        && g.armed.swap(false, Ordering::SeqCst)
+                })
+                .cloned()
+        };
+        if let Some(g) = gate {
+            let seq = self.world.next_seq();
+            self.world.log(
+                seq,
+                json!({"t": "hold", "seq": seq, "what": "begin", "gate": g.cmd, "cid": self.id, "cmd": hex_args(&cmd)}),
+            );
+            g.was_held.store(true, Ordering::SeqCst);
+            g.holding.store(true, Ordering::SeqCst);
+            let start = Instant::now();
+            let mut by = "timeout";
+            while start.elapsed() < g.max {
+                if g.released.load(Ordering::SeqCst) {
+                    by = "signal";
+                    break;
+                }
+                tokio::time::sleep(Duration::from_millis(1)).await;
+            }
+            g.holding.store(false, Ordering::SeqCst);
+            let seq = self.world.next_seq();
+            self.world
+                .log(seq, json!({"t": "hold", "seq": seq, "what": "end", "gate": g.cmd, "by": by, "cid": self.id}));
         }
         self.world.latency(&self.rng).await;
         Ok(self
